@@ -173,6 +173,10 @@ func buildAll(o *vh.Out, dir string) {
 		if m := buildErrRe.FindStringSubmatch(msg); m != nil {
 			first = m[1]
 		}
+		if strings.Contains(msg, "use of internal package") || !strings.Contains(msg, "xgo_autogen.go") {
+			o.Count("go_build_skipped_not_about_output")
+			continue // an artefact of building outside /repo, or an error in the package's own Go files
+		}
 		o.Oracle("success-go-build-fails:"+compa.ErrClass(first), toBuild[i].caseLine, firstN(msg, 300))
 	}
 	if n != len(toBuild) {
